@@ -1,6 +1,8 @@
 import Driver.Util
 import NixModel.Pure.Tree
-open Lean Nix Nix.Tree
+import NixModel.Pure.TreeShape
+import NixModel.Generated.FindShape
+open Lean Nix Nix.Tree Nix.Tree.Shape Nix.Generated
 
 namespace Driver.C13
 
@@ -42,6 +44,15 @@ def doOp (f : File) (op : Op) : File × Json :=
   | .ok (f', some k) => (f', ok (jKey k))
   | .ok (f', none) => (f', ok Json.null)
   | .error e => (f, err e)
+
+def exceptKeys (r : Except Err (List Nat)) : Json :=
+  match r with
+  | .ok v => ok (jKeys v)
+  | .error e => err e
+
+/-- the public search method of a class, as extracted from the source -/
+def wrapper? (cls method : String) : Option Wrapper :=
+  FindShape.wrappers.find? fun w => w.cls == cls && w.method == method
 
 def exceptKey (r : Except Err (Option Nat)) : Json :=
   match r with
@@ -94,17 +105,21 @@ def handle (f : File) (j : Json) : File × Json :=
   | [Json.str "find", root, filt, limit] =>
     match filter? filt, (if isNull limit then some none else (jNat? limit).map some) with
     | some fl, some lim =>
-      let res (r : Root) : File × Json := (f, ok (jKeys ((findFrom r fl lim).map Node.key)))
+      -- the method of the class as `Generated/FindShape.lean` has it, interpreted by `Pure/TreeShape.lean`
+      let res (cls method : String) (r : Root) : File × Json :=
+        match wrapper? cls method with
+        | some w => (f, exceptKeys ((findW w r fl lim).map fun l => l.map Node.key))
+        | none => (f, bad "C13: no such search method in the source")
       match root with
-      | Json.str "file" => res (.top f.sections)
+      | Json.str "file" => res "File" "find_sections" (.top f.sections)
       | _ =>
         match jNat? root with
         | none => (f, bad "C13: find root")
         | some k =>
           match f.lookup k with
-          | some (.sec n) => res (.node n)
-          | some (.src _ n) => res (.node n)
-          | some (.blk b) => res (.top b.sources)
+          | some (.sec n) => res "Section" "find_sections" (.node n)
+          | some (.src _ n) => res "Source" "find_sources" (.node n)
+          | some (.blk b) => res "Block" "find_sources" (.top b.sources)
           | _ => (f, err .keyError)
     | _, _ => (f, bad "C13: find filter/limit")
   | [Json.str "parent", k, via] =>
@@ -112,8 +127,8 @@ def handle (f : File) (j : Json) : File × Json :=
     | none => (f, bad "C13: parent")
     | some k =>
       match via with
-      | Json.str "cached" => (f, exceptKey (sectionParent f k true))
-      | Json.str "fresh" => (f, exceptKey (sectionParent f k false))
+      | Json.str "cached" => (f, exceptKey (sectionParentG FindShape.sectionParent f k true))
+      | Json.str "fresh" => (f, exceptKey (sectionParentG FindShape.sectionParent f k false))
       | _ =>
         -- ["md", e]: the handle is `e.metadata`
         match (jArr via).toList with
@@ -126,20 +141,20 @@ def handle (f : File) (j : Json) : File × Json :=
               | some (.hold _ h) => some h.md
               | some (.src _ n) => some n.md
               | _ => none
-            if md == some (some k) then (f, exceptKey (sectionParent f k false)) else (f, err .keyError)
+            if md == some (some k) then (f, exceptKey (sectionParentG FindShape.sectionParent f k false)) else (f, err .keyError)
         | _ => (f, bad "C13: parent via")
   | [Json.str "parent_source", k, via] =>
     match jNat? k with
     | none => (f, bad "C13: parent_source")
     | some k =>
       match via with
-      | Json.str "fresh" => (f, exceptKey (sourceParent f k))
+      | Json.str "fresh" => (f, exceptKey (sourceParentG FindShape.sourceParent f k))
       | _ =>
         match (jArr via).toList with
         | [Json.str "link", h] =>
           match (jNat? h).bind f.lookup with
           | some (.hold _ h) =>
-            if h.srcs.contains k then (f, exceptKey (sourceParent f k)) else (f, err .keyError)
+            if h.srcs.contains k then (f, exceptKey (sourceParentG FindShape.sourceParent f k)) else (f, err .keyError)
           | _ => (f, err .keyError)
         | _ => (f, bad "C13: parent_source via")
   | [Json.str "parent_block", k, via] =>
@@ -162,29 +177,27 @@ def handle (f : File) (j : Json) : File × Json :=
     match jNat? k with
     | none => (f, bad "C13: referring")
     | some k =>
+      -- `referring_<what>` of the class as extracted; a property the class does not have: AttributeError
       match f.lookup k with
       | some (.sec _) =>
-        match what with
-        | "blocks" => (f, ok (jKeys (refBlocks f k)))
-        | "groups" => (f, ok (jKeys (refHolders f .group k)))
-        | "data_arrays" => (f, ok (jKeys (refHolders f .dataArray k)))
-        | "tags" => (f, ok (jKeys (refHolders f .tag k)))
-        | "multi_tags" => (f, ok (jKeys (refHolders f .multiTag k)))
-        | "sources" => (f, ok (jKeys (refSources f k)))
-        | "objects" => (f, ok (jKeys (refObjects f k)))
-        | _ => (f, bad "C13: referring kind")
+        if what == "objects" then
+          (f, exceptKeys (refObjectsG FindShape.sectionReferring FindShape.sectionReferringObjects f k))
+        else (f, exceptKeys (refList FindShape.sectionReferring f ("referring_" ++ what) k))
       | some (.src b _) =>
-        match what with
-        | "groups" => (f, ok (jKeys (srcRefHolders b .group k)))
-        | "data_arrays" => (f, ok (jKeys (srcRefHolders b .dataArray k)))
-        | "tags" => (f, ok (jKeys (srcRefHolders b .tag k)))
-        | "multi_tags" => (f, ok (jKeys (srcRefHolders b .multiTag k)))
-        | "objects" => (f, ok (jKeys (srcRefObjects b k)))
-        -- a Source has no referring_blocks / referring_sources attribute
-        | "blocks" => (f, err .attributeError)
-        | "sources" => (f, err .attributeError)
-        | _ => (f, bad "C13: referring kind")
+        if what == "objects" then
+          (f, exceptKeys (srcRefObjectsG FindShape.sourceReferring FindShape.sourceReferringObjects b k))
+        else (f, exceptKeys (srcRefList FindShape.sourceReferring b ("referring_" ++ what) k))
       | _ => (f, err .keyError)
+  | [Json.str "find_related", k, via, filt] =>
+    match jNat? k, filter? filt with
+    | some k, some fl =>
+      let res (c : Bool) : File × Json :=
+        (f, exceptKeys ((findRelatedG FindShape.sectionParent FindShape.related f k c fl).map fun l => l.map Node.key))
+      match via with
+      | Json.str "cached" => res true
+      | Json.str "fresh" => res false
+      | _ => (f, bad "C13: find_related via")
+    | _, _ => (f, bad "C13: find_related")
   | _ => (f, bad "C13: unknown op")
 
 def main : IO Unit := loop ({} : File) handle
